@@ -105,6 +105,11 @@ Models ==
        inputs |-> <<InD("x", <<DSym, DFix(3)>>)>>, outputs |-> <<"lt", "an", "o", "xo", "wm", "wx", "nl", "eq">>,
        inits |-> [v |-> T("f32", <<3>>, <<1, 0, -1>>), m |-> T("bool", <<3>>, <<TRUE, FALSE, TRUE>>),
                   mfull |-> T("bool", <<2, 3>>, <<TRUE, TRUE, FALSE, FALSE, TRUE, FALSE>>)]],
+    \* a vector weight: MatMul promotes it to a matrix; a Run that fails inside the MatMul (inner extents differ) is followed by good ones
+    matmul_vector_weight |->
+      [nodes |-> <<Nd("MatMul", <<>>, <<"x", "v">>, <<"y">>), Nd("MatMul", <<>>, <<"v", "w">>, <<"z">>), Nd("Add", <<>>, <<"v", "v">>, <<"vv">>)>>,
+       inputs |-> <<InD("x", <<DSym, DSym>>)>>, outputs |-> <<"y", "z", "vv">>,
+       inits |-> [v |-> T("f32", <<2>>, <<3, -1>>), w |-> T("f32", <<2, 3>>, <<1, 0, -1, 2, 1, 0>>)]],
     const_scaler_gemm |->
       [nodes |-> <<Nd("Constant", <<AT("value", [dt |-> "f32", shape |-> <<3>>, data |-> <<1, 2, 3>>])>>, <<>>, <<"k">>),
                    Nd("Scaler", <<AFs("offset", <<1, 2, 3>>), AFs("scale", <<2, 2, 2>>)>>, <<"x">>, <<"sc">>),
